@@ -1,3 +1,3 @@
-import Props.SlicesGen
+import Props.GenMisc
 open Model.SlicesGen
 #print axioms uniqueCIDs_eq_uniq
